@@ -1,0 +1,21 @@
+//go:build !verif
+
+// Package verifhook holds the instrumentation points used by the external
+// verification harness. Without the "verif" build tag every function is an
+// empty or identity stub that the compiler inlines away.
+package verifhook
+
+// Enabled reports whether the hooks are compiled in.
+const Enabled = false
+
+// FramePass is called by the lossy encoder after each encode pass.
+func FramePass(pass, width, height int, y, u, v []byte, yStride, uvStride int) {}
+
+// Point marks a synchronisation point (id) with two arguments.
+func Point(id, a, b int) {}
+
+// Workers lets the harness override a worker count chosen at a call site.
+func Workers(site string, n int) int { return n }
+
+// Pool reports a sync.Pool Get (hit = an object was reused).
+func Pool(id string, hit bool) {}
